@@ -277,6 +277,27 @@ Definition check_prefix (c : clause) : bool :=
   | Some st => check_final c st && negb (is_nil (cbody c) && negb (is_nil (clet c)))
   end.
 
+(* ---- not part of the Go code: clauses on which C01's engine model (Datalog/Solve.v) is
+   exact. That model has no variable-variable aliasing: "X = Y" with neither side bound is
+   an error there, while the Go engine unifies the two variables. alias_free c = every
+   variable = variable equality of c has a side that CheckRule counts as bound at that point. *)
+Definition alias_ok (st : cstate) (p : premise) : bool :=
+  match p with
+  | PEq (TVar x) (TVar y) => Z.eqb x y || memZ x (cs_bound st) || memZ y (cs_bound st)
+  | _ => true
+  end.
+Fixpoint alias_free_body (st : cstate) (origs ps : list premise) : bool :=
+  match origs, ps with
+  | o :: origs', p :: ps' =>
+      alias_ok st p && match check_premise st o p with
+                       | Some st' => alias_free_body st' origs' ps'
+                       | None => true
+                       end
+  | _, _ => true
+  end.
+Definition alias_free (c : clause) : bool :=
+  alias_free_body (mkCS [] (atom_vars (chead c)) []) (cbody c) (cbody (replace_wildcards c)).
+
 (* analysis of one clause: validation.go:306-321 *)
 Definition accepted (c : clause) : bool := check (rewrite c).
 Definition accepted_prefix (c : clause) : bool := check_prefix (rewrite_prefix c).
